@@ -93,7 +93,7 @@ def gen_namespace(rng, nsname, thorough, deps, want_blocks=True, main=True, gobj
     nrec = rng.randint(1, 4 if thorough else 3)
     records = rng.sample(RECORD_NAMES, nrec)
     nested = None
-    if rng.random() < 0.3:
+    if rng.random() < 0.4:
         # two types whose underscored names nest (widget / widget_item): a function called
         # <p>_widget_item_... must go to the longest matching type whatever the arrival order
         nested = records[0]
@@ -354,6 +354,12 @@ def gen_namespace(rng, nsname, thorough, deps, want_blocks=True, main=True, gobj
         D({'k': 'function', 'name': '%s_%s_item_get_owner' % (p, sn), 'ret': RP0, 'params': [['self', RI]]}, rng.choice(apis))
         D({'k': 'function', 'name': '%s_%s_item_count' % (p, sn), 'ret': ['basic', 'int'], 'params': [['self', RP0]]}, rng.choice(apis))
         D({'k': 'function', 'name': '%s_%s_item_defaults' % (p, sn), 'ret': ['void'], 'params': []}, rng.choice(apis))
+        # static functions of both, spread over the headers: in some arrival order one of the outer
+        # type is met right before one of the inner type
+        for nm in rng.sample(['reset_all', 'registry_size', 'flush_all'], rng.randint(1, 3)):
+            D({'k': 'function', 'name': '%s_%s_%s' % (p, sn, nm), 'ret': ['basic', 'int'], 'params': []}, rng.choice(apis))
+            if rng.random() < 0.7:
+                D({'k': 'function', 'name': '%s_%s_item_%s' % (p, sn, nm), 'ret': ['basic', 'int'], 'params': []}, rng.choice(apis))
 
     # ---- a chain of callbacks that cannot be introspected: A takes a va_list, B takes A, and
     # functions/methods take A or B.  Introspectability has to propagate along the chain
